@@ -13,13 +13,14 @@ CONSTANTS MaxN, MaxLen
 
 VARIABLES n, m
 
-Lists(k) == UNION {[1..len -> 1..k] : len \in 1..MaxLen}
-
-Init == n \in 1..MaxN /\ m \in Lists(n)
-Next == UNCHANGED <<n, m>>
+\* the lists are built one transaction at a time, so that every list up to MaxLen is a state
+Init == n \in 1..MaxN /\ m = <<>>
+Next == /\ Len(m) < MaxLen
+        /\ \E x \in 1..n : m' = Append(m, x)
+        /\ UNCHANGED n
 Spec == Init /\ [][Next]_<<n, m>>
 
-Preserving == RootMatches(m, n) /\ m # Ident(n)
+Preserving == Len(m) >= 1 /\ RootMatches(m, n) /\ m # Ident(n)
 
 MutationsRepeat ==
   Preserving => /\ HasDup(m)
@@ -27,5 +28,5 @@ MutationsRepeat ==
 
 OriginalAccepted == Acceptable(Ident(n), n)
 
-OnlyOriginalAccepted == Acceptable(m, n) => m = Ident(n)
+OnlyOriginalAccepted == (Len(m) >= 1 /\ Acceptable(m, n)) => m = Ident(n)
 =============================================================================
